@@ -69,7 +69,7 @@ class GetFromPaths(GetByFinder):
                 warning(f"Failed to get data from json. Sid: {sid}, file: {data_path}, Error: {e}")
 
         encoded = sid_encode(_sid)
-        if encoded:
+        if encoded is not None:  # only None means "no sid entry" (0 or "" are values)
             data["sid"] = encoded
 
         if attributes:
